@@ -84,7 +84,7 @@ def execute(plan: dict, scratch: str, replay: Optional[dict] = None) -> dict:
         for e in st.metadata_log:
             if not view.exists(e.get("metadata-file", "")):
                 V.append({"clause": "W.mlog_missing_file", "msg": f"metadata log names missing file {e.get('metadata-file')}"})
-        if rec["outcome"] == "raise" and rec["op"]["kind"] not in ("bad_append", "delete_snapshot"):
+        if rec["outcome"] == "raise" and rec["op"]["kind"] not in ("bad_append", "delete_snapshot", "requeue_fail"):
             V.append({"clause": "W.op_failed", "msg": f"fault-free {rec['op']['kind']} raised {rec.get('exc')}: {(rec.get('msg') or '')[:160]}",
                       "sig": f"W.op_failed|{rec['op']['kind']}|{rec.get('exc')}"})
     hr.run(after)
